@@ -21,6 +21,8 @@ type IOFault struct {
 	PinSide string `json:"pin_side,omitempty"`
 	PinK    int    `json:"pin_k,omitempty"`
 	PinForm bool   `json:"pin_form,omitempty"` // write: short write; read: error together with data
+	// PinForm2: write: the destination fails once and recovers (short or not by the parity of k)
+	PinForm2 bool `json:"pin_form2,omitempty"`
 	// ErrKind selects the error value the failing source/destination returns
 	// (0 a private error, 1 io.ErrUnexpectedEOF, 2 io.ErrClosedPipe, 3 io.ErrNoProgress, 4 syscall.ECONNRESET,
 	// 5 os.ErrDeadlineExceeded, 6 syscall.EAGAIN, 7 syscall.EINTR - the last three call themselves temporary).
@@ -109,6 +111,13 @@ func (s *IOFault) Shrinks(try func(core.Scenario) bool) bool {
 						return true
 					}
 				}
+				if side == "write" {
+					c := *s
+					c.PinSide, c.PinK, c.PinForm2 = side, k, true
+					if try(&c) {
+						return true
+					}
+				}
 			}
 		}
 	}
@@ -134,14 +143,18 @@ func (s *IOFault) Run(env *core.Env, st *core.Stats) (vs []core.Violation) {
 
 	// ---------------- write side (needs the value, i.e. a history)
 	if s.Src.Hist != nil && s.PinSide != "read" {
-		writeFault := func(k int, short bool) bool {
+		writeFault := func(k int, form int) bool {
+			short := form == 1 || (form == 2 && k%2 == 1)
 			val, _, _ := s.Src.Hist.Build()
-			d := &simio.Disk{Limit: k, Short: short, Err: s.errValue()}
+			d := &simio.Disk{Limit: k, Short: short, Err: s.errValue(), Transient: form == 2}
 			o := writeTo(val, d)
 			st.Eval(1)
-			if short {
+			switch {
+			case form == 2:
+				st.Fault("write-error-once-then-recovers")
+			case short:
 				st.Fault("write-short")
-			} else {
+			default:
 				st.Fault("write-error")
 			}
 			st.Region("write:" + regionAt(k))
@@ -163,15 +176,22 @@ func (s *IOFault) Run(env *core.Env, st *core.Stats) (vs []core.Violation) {
 			}
 			if o.err == nil {
 				vs = append(vs, core.V("write-error-swallowed", "write:"+keyRegion(regionAt(k)),
-					"destination accepted %d of %d bytes and then failed (short=%v, region %s, %d failing Write calls seen) but WriteTo returned nil error, size=%d",
-					len(d.Stored), S, short, regionAt(k), d.Fails, o.size))
+					"destination accepted %d bytes of a %d byte file, then one Write failed (short=%v, recovers afterwards=%v, region %s, %d failing Write calls seen, %d bytes accepted in the end) but WriteTo returned nil error, size=%d",
+					k, S, short, d.Transient, regionAt(k), d.Fails, len(d.Stored), o.size))
 				return false
 			}
 			return true
 		}
 		if s.PinSide == "write" {
 			if s.PinK < S {
-				writeFault(s.PinK, s.PinForm)
+				form := 0
+				if s.PinForm {
+					form = 1
+				}
+				if s.PinForm2 {
+					form = 2
+				}
+				writeFault(s.PinK, form)
 			}
 			return vs
 		}
@@ -190,7 +210,7 @@ func (s *IOFault) Run(env *core.Env, st *core.Stats) (vs []core.Violation) {
 			}
 		}
 		for k := 0; k < S; k++ {
-			if !writeFault(k, false) || !writeFault(k, true) {
+			if !writeFault(k, 0) || !writeFault(k, 1) || !writeFault(k, 2) {
 				return vs
 			}
 		}
